@@ -21,7 +21,9 @@ let out_of (t : int) (text : string) : cl_out list =
   | ["EXIT"] -> [CoExit nt]
   | _ -> []
 
-let step (cfg : cl_cfg) (s : cl_state) (ev : cl_event) (iouts : (int * string) list) : (string * string) list =
+let step (cfg : cl_cfg) (s : cl_state) (ev : cl_event) (iouts : (int * string) list) (m : cmon) : (string * string) list * cmon =
   let os = List.concat_map (fun (t, x) -> out_of t x) iouts in
   let tag p l = List.map (fun c -> (p, "clause" ^ string_of_int (int_of_n c))) l in
-  tag "C23" (chk_C23c os) @ tag "C27" (chk_C27 cfg s ev os) @ tag "C17" (chk_C17 cfg s ev os) @ tag "C31" (chk_C31c cfg os)
+  let (m', mf) = cmon_step cfg s ev os m in
+  (tag "C23" (chk_C23c os) @ tag "C27" (chk_C27 cfg s ev os) @ tag "C17" (chk_C17 cfg s ev os) @ tag "C31" (chk_C31c cfg os)
+   @ List.map (fun (p, c) -> (Printf.sprintf "C%02d" (int_of_n p), Printf.sprintf "clause%d" (int_of_n c))) mf, m')
